@@ -943,7 +943,12 @@ Section Model.
 
       (* ---------- __collect (lib.rs:280) ---------- *)
       | KCollectOnce =>
-        let '(m, pr) := trace_pass m in
+        (* the tracing phases run with finalizing/dropping cleared; the two guards restore the
+           caller's values afterwards, also when tracing unwinds (lib.rs, __collect) *)
+        let old_f := st_finalizing m in
+        let old_d := st_dropping m in
+        let '(m, pr) := trace_pass (m <| st_finalizing := false |> <| st_dropping := false |>) in
+        let m := m <| st_finalizing := old_f |> <| st_dropping := old_d |> in
         match pr with
         | PFuel => (emit_bad Fuel 0 m, OFuel)
         | PPanicked => (m, raise m)
